@@ -1,16 +1,20 @@
 PROPERTY = {
     'id': 'C18',
-    'extra': ['bounded.c08_lines.run'],
+    'extra': ['bounded.c08_lines.run', 'bounded.c01_chunks.run'],
     'contract_modules': ['doctest_example', 'doctest_part', 'parser'],
     'functions': ['xdoctest.doctest_part:DoctestPart.format_part', 'xdoctest.utils.util_str:indent',
                   'xdoctest.utils.util_str:add_line_numbers', 'xdoctest.utils.util_str:highlight_code',
-                  'xdoctest.parser:DoctestParser._package_groups#offsets', 'xdoctest.parser:DoctestParser._package_chunk'],
+                  'xdoctest.parser:DoctestParser._package_groups#offsets', 'xdoctest.parser:DoctestParser._package_chunk',
+                  'xdoctest.parser:DoctestParser._package_chunk#slices', 'xdoctest.parser:DoctestParser._package_chunk.slice_example',
+                  'xdoctest.parser:DoctestParser._locate_ps1_linenos', 'xdoctest.directive:Directive.extract'],
     'clauses': {
         'P': ['DoctestPart.format_part with prompts, without colours, line numbers or part numbers: the text is exactly the part\'s original '
               'prompt lines in order, followed -- iff want=True and the part has a want -- by its want lines in order, joined by newlines: '
               'every source and want line once, nothing added, dropped, trimmed or reordered (loop invariant over the want lines)',
-              'the line offsets the numbered display adds to (part.line_offset) are the true indices of the parts: _package_groups offset invariant'],
-        'B': ['the real freeform / google parsers on random docstrings: every (doctest line + part offset) points at the docstring line that holds the first source line of that part, and failed_lineno() at the statement that raised (bounded/c08_lines.py)'],
+              'the line offsets the numbered display adds to (part.line_offset) are the true indices of the parts: _package_groups offset invariant',
+              '_package_chunk: the parts are forward slices of the chunk that partition it (shared with C01): the statement before the want is only split off when that leaves a non-empty part before it'],
+        'B': ['the real chunk packaging on all short statement sequences: partition, no empty part (a spurious blank line in the display), offsets (bounded/c01_chunks.py)',
+              'the real freeform / google parsers on random docstrings: every (doctest line + part offset) points at the docstring line that holds the first source line of that part, and failed_lineno() at the statement that raised (bounded/c08_lines.py)'],
         'T': ["law of the builtins: '\\n'.join(xs).splitlines() == xs for plain lines (no embedded line boundary, last line not empty); "
               "join distributes over list concatenation"],
         'N/A': ['"parsing that text again yields the same doctest": a round trip through the tokenizer / ast based parser',
